@@ -672,7 +672,15 @@ def _c13_rewrite(ctx, params):
         # build the checkpoint the user would write down: x, f', grad', pairs = differences over retained points
         ret_p, ret_g = [pts[-1]], [grads[-1]]
         chain_p, chain_g = filter_history(seen["X"], [list(g2(p)) for p in seen["X"]], EPS)
-        allp, allg = chain_p + [seen["x"]], chain_g + [seen["grad"]]
+        # the current point joins the history iff the pair it forms with the newest retained point is valid
+        s_new = [a - b for a, b in zip(seen["x"], chain_p[-1])]
+        y_new = [a - b for a, b in zip(seen["grad"], chain_g[-1])]
+        sy = sum((a * b for a, b in zip(s_new, y_new)), SReal.of(0))
+        yy = sum((a * a for a in y_new), SReal.of(0))
+        if bool(sy > SReal.of(EPS) * yy):
+            allp, allg = chain_p + [seen["x"]], chain_g + [seen["grad"]]
+        else:
+            allp, allg = chain_p, chain_g
         sk = [[b - a for a, b in zip(allp[i], allp[i + 1])] for i in range(len(allp) - 1)]
         yk = [[b - a for a, b in zip(allg[i], allg[i + 1])] for i in range(len(allg) - 1)]
         mm = len(sk)
@@ -703,3 +711,35 @@ def filter_history(X, G, eps):
 
 
 c13_rewrite = wrap(_c13_rewrite)
+
+
+def unit_scaler(ctx, params):
+    """The packaged scaler: 1 / max_i |x_i - clip(x_i - g_i, l_i, u_i)| for all real x, g, finite box."""
+    from . import c08
+    n = params["n"]
+    W = common.world()
+    np = W.np
+    utils = W.load("lbfgsb.utils")
+    x, g, l, u = common.sym_point_and_box(ctx, np, n, ("ff",) * n)
+    ctx.assume(c08.proj_grad_nonzero(n, x.data, g.data, l.data, u.data))
+    try:
+        val = utils.get_gradient_projection_unit_scaling(x, g, l, u)
+    except (PathAbort, Unsupported):
+        raise
+    except Exception as e:
+        ctx.check("no_exception", True, info=dict(exc=type(e).__name__, msg=str(e)[:200]))
+        return dict(cls="exception")
+    # oracle as an ite term
+    best = None
+    for i in range(n):
+        v = x.data[i].z() - g.data[i].z()
+        v = z3.If(v < l.data[i].z(), l.data[i].z(), z3.If(v > u.data[i].z(), u.data[i].z(), v))
+        d = x.data[i].z() - v
+        a = z3.If(d >= 0, d, -d)
+        best = a if best is None else z3.If(a >= best, a, best)
+    val = SReal.of(val)
+    if val.is_special:
+        ctx.check("C17.unit_scaler_is_inverse_projected_gradient_norm", True, info=dict(n=n, why="non-finite value"))
+    else:
+        ctx.check("C17.unit_scaler_is_inverse_projected_gradient_norm", val.z() * best != 1, info=dict(n=n))
+    return dict(cls="ok")
